@@ -1,9 +1,10 @@
 ------------------------------ MODULE MC_System ------------------------------
 (***************************************************************************)
 (* SYSTEM suite: random sessions (TLC -simulate) of the closed client       *)
-(* session of PurlSystem.tla; every behaviour of length DEPTH is replayed   *)
-(* on live objects (builder, PURL, string) and the projection is compared   *)
-(* after every step.                                                        *)
+(* session of PurlSystem.tla (with serde steps, a saved value, comparisons *)
+(* and combined names); every behaviour of length DEPTH is replayed on     *)
+(* live objects (builder, two PURLs, string) and the projection is         *)
+(* compared after every step.                                              *)
 (***************************************************************************)
 EXTENDS Json, TLCExt, PurlBuilder
 CONSTANTS SHAPE, DEPTH
@@ -17,13 +18,29 @@ MCOps == {<<"with_namespace", <<97,47,47,66>>>>, <<"with_namespace", <<64,115>>>
           <<"with_qualifier", <<107,97>>, <<>>>>, <<"with_qualifier", <<33>>, <<118>>>>,
           <<"with_qualifier", CHECKSUM, <<66,58,48,65,44,97,58,102,70>>>>, <<"with_qualifier", CHECKSUM, <<122,122>>>>, <<"without_qualifiers">>}
          \cup {<<"with_package_type", t>> : t \in MCTypes}
-VARIABLES b, v, s, err, log
-Sys == INSTANCE PurlSystem WITH Shape <- Sh, TypesU <- MCTypes, NamesU <- MCNames, OpsU <- MCOps
+\* combined names for builder_with_combined_name (typed sessions only)
+MCComb == IF SHAPE = "typed" THEN {<<97,47,98,47,99>>, <<103,58,97,58,98>>, <<47,110>>, <<110>>} ELSE {}
+VARIABLES b, v, w, s, err, log
+Sys == INSTANCE PurlSystem WITH Shape <- Sh, TypesU <- MCTypes, NamesU <- MCNames, OpsU <- MCOps, CombU <- MCComb
 Init == Sys!Init
-Next == Len(log) < DEPTH /\ Sys!Next
-Spec == Init /\ [][Next]_<<b, v, s, err, log>>
+\* TLC -simulate picks uniformly among the successor STATES, so a Next with one successor per parameter value
+\* would spend the walk on New and Op.  Here every kind of step has one successor (two for Op), its parameters
+\* drawn by RandomElement, and a new builder is started only when there is none; every step taken is a step of Sys!Next.
+One(S) == {RandomElement(S)}
+Next == /\ Len(log) < DEPTH
+        /\ \/ ~b.some /\ \E t \in One(MCTypes), n \in One(MCNames) : Sys!New(t, n)
+           \/ ~b.some /\ MCComb # {} /\ \E t \in One(MCTypes), c \in One(MCComb) : Sys!NewCombined(t, c)
+           \/ \E op \in One(MCOps) : Sys!Op(op)
+           \/ \E op \in One(MCOps) : Sys!Op(op)
+           \/ Sys!Build \/ Sys!IntoBuilder \/ Sys!Save \/ Sys!Swap \/ Sys!Compare \/ Sys!CombinedName
+           \/ \E how \in One({"format", "ser"}) : Sys!Format(how)
+           \/ \E how \in One({"parse", "de"}) : Sys!Parse(how)
+           \/ \E m \in One({"slashes", "uppertype", "lowerhex"}) : Sys!Respell(m)
+Spec == Init /\ [][Next]_<<b, v, w, s, err, log>>
 SysValid == Sys!SysValid
 SysStringParses == Sys!SysStringParses
 SysRebuild == Sys!SysRebuild
+SysCompare == Sys!SysCompare
+SysSavedValid == Sys!SysSavedValid
 Emit == Len(log) = DEPTH => PrintT(<<"CASE", ToJson([k |-> "sys", sh |-> SHAPE, steps |-> log])>>)
 =============================================================================
